@@ -13,7 +13,10 @@ out, repo = sys.argv[1], sys.argv[2]
 def parse(fn):
     ok=set()
     for tc in ET.parse(fn).getroot().iter("testcase"):
-        tid=(tc.get("classname") or "")+"::"+(tc.get("name") or "")
+        cn=tc.get("classname") or ""
+        if not cn.startswith("pandapower.test."):
+            cn="pandapower.test."+cn        # re-run with file paths reports class names relative to the test directory
+        tid=cn+"::"+(tc.get("name") or "")
         if tc.find("failure") is None and tc.find("error") is None and tc.find("skipped") is None: ok.add(tid)
     return ok
 stable=set(json.load(open("/root/.vp/BASELINE.json"))["stable_pass"])
